@@ -36,7 +36,7 @@ _VALUES = {
 }
 VALUES_FULL = ('int', 'str', 'dict', 'list', 'tuple', 'arr')
 VALUES_CHAIN = ('int', 'nested')
-VALUES_SPINE = ('int', 'dict', 'tuple')
+VALUES_SPINE = ('int', 'dict')
 
 
 # ---- translation between reference keys and library keys ---------------------
@@ -150,8 +150,16 @@ def values_for(tree, key, names):
 
 # ---- drivers -----------------------------------------------------------------
 
+def _coarse(cls):
+  for p in ('existing', 'fresh', 'invalid'):
+    if cls.startswith(p):
+      return p
+  return 'SELF' if cls == 'root-path' else cls
+
+
 def _viol(st, driver, problem, cls, spec, detail, replay):
-  st.violation(f'C18:{driver}:{problem}:{cls}:{root_class(spec)}',
+  root = '' if '.' in driver and '+' in cls else ':' + root_class(spec)
+  st.violation(f'C18:{driver}:{problem}:{cls}{root}',
                dict(detail, tree=te.show(spec) if spec != EMPTY else EMPTY),
                replay=replay)
 
@@ -187,7 +195,10 @@ def check_steps(st, spec, steps, form, keyform='path'):
   values = [_VALUES[v]() for _, _, v in steps]
   vsnaps = [ref.snapshot(v) for v in values]
   keys = [k for _, k, _ in steps]
-  cls = '+'.join(c for c, _, _ in steps)
+  if len(steps) == 1:
+    cls = steps[0][0]
+  else:   # coarse classes, as a set: keeps the number of signatures small
+    cls = '+'.join(sorted({_coarse(c) for c, _, _ in steps}))
   replay = {'driver': 'steps', 'spec': spec, 'form': form, 'keyform': keyform,
             'steps': [(c, _enc(k), v) for c, k, v in steps]}
   st.case(None)
@@ -572,7 +583,8 @@ def _unit(args):
     if kind == 'single':
       timed('single_set', singles, spec, opt['values'])
       timed('set_to_current', check_set_to_current, spec)
-      timed('one_key_tuple', check_multikey_single, spec)
+      if opt.get('one_key', True):
+        timed('one_key_tuple', check_multikey_single, spec)
       if spec != EMPTY:
         timed('reads', check_reads, spec, opt['multi'])
         timed('iteration', check_iteration, spec)
@@ -613,6 +625,7 @@ def run(ctx):
   spine3 = _spine_depth3()
   rot2 = sorted({te.rotated(s, o) for s in _roots(te.shapes(2))
                  for o in range(3)}, key=repr)
+  rot1 = [te.rotated(s, i % 3) for i, s in enumerate(_roots(te.shapes(2)))]
   narrow2 = _roots(te.specs(2, max_children=1))
   all_forms = ('chain', 'multikey', 'update-pairs', 'update-dict')
   two_forms = ('chain', 'multikey')
@@ -621,8 +634,9 @@ def run(ctx):
       ('single', [EMPTY] + d2,
        {'values': VALUES_FULL, 'multi': 2 if quick else 3}),
       ('single', spine3,
-       {'values': VALUES_SPINE if quick else VALUES_FULL, 'multi': 2}),
-      ('chain', [EMPTY] + rot2,
+       {'values': VALUES_SPINE if quick else VALUES_FULL,
+        'multi': 0 if quick else 2, 'one_key': not quick}),
+      ('chain', [EMPTY] + (rot1 if quick else rot2),
        {'length': 2, 'values': VALUES_CHAIN,
         'forms': two_forms if quick else all_forms}),
   ]
@@ -656,15 +670,18 @@ def run(ctx):
       'apply(map_fn) with 2 functions; chains: every sequence of 2 sets '
       '(values int, nested dict; step 2 ranges over the keys of the tree after '
       'step 1) as chained copy_and_set and as one multi-key copy_and_set on '
-      'every depth<=2 shape with rotating leaf kinds (%d trees)%s. Cases are '
+      'every depth<=2 shape with leaf kinds int/str/ndarray assigned '
+      'cyclically%s (%d trees)%s. Cases are '
       'distinct by construction; non-trivial = at least one leaf or one set.'
       % (len(d2), len(spine3),
          '' if quick else '; single sets, reads, iteration and apply also on '
          'every depth-3 shape with <= 2 children per node, leaf kinds '
          'rotating (%d trees, values int/dict)' % len(deep),
-         ' (int, dict, tuple on the depth-3 trees)' if quick else '',
-         '' if quick else ' and triples (depth <= 2)',
-         len(rot2),
+         ' (int, dict on the depth-3 trees)' if quick else '',
+         ' (depth <= 2)' if quick else ' and triples (depth <= 2)',
+         ' (one starting offset per shape)' if quick else
+         ' (all three starting offsets)',
+         len(rot1 if quick else rot2),
          ', as copy_and_update(pairs/dict) on the %d trees of depth <= 1'
          % len(d1) if quick else
          ' (there also as copy_and_update(pairs/dict)) and on all %d trees of '
@@ -685,8 +702,8 @@ def run(ctx):
   ]
   units = []
   for kind, trees, opt in plan:
-    per = 8 if kind == 'chain' and opt['length'] == 3 else (
-        24 if kind == 'chain' else (400 if opt['multi'] == 0 else 100))
+    per = 4 if kind == 'chain' and opt['length'] == 3 else (
+        8 if kind == 'chain' else (150 if opt['multi'] == 0 else 40))
     trees = ctx.shuffled(trees)
     units += [(kind, trees[i:i + per], opt) for i in range(0, len(trees), per)]
   ctx.pmap(_unit, ctx.shuffled(units))
